@@ -8,8 +8,20 @@ HERE = os.path.dirname(os.path.abspath(__file__))
 KEEP_FILE = os.path.join(os.path.dirname(os.path.dirname(HERE)), "baseline", "functions-a6bc6ede.json")
 
 
+# Private helpers of the pinned tree that are spliced into their callers like any later-extracted helper: the rules are
+# stated over the callers, so inlining / renaming / re-splitting these helpers in the source changes nothing.
+SPLICE_BASELINE = {
+    canon.SQLITE + "::Txn::get_version_impl": "query helper of the two version lookups",
+    canon.SERVER + "::api::ServerState::client_id_header::badrequest": "error constructor local to the header helper",
+    canon.SQLITE + "::SqliteStorage::new_connection": "opens the connection for SqliteStorage::new and Storage::txn",
+    canon.SERVER + "::api::server_error_to_actix": "ServerError -> actix error mapping (the handlers' outcome tables decide the statuses)",
+    canon.SERVER + "::api::failure_to_ise": "anyhow error -> 500 mapping of the creation block",
+    canon.SERVER + "::api::api_scope": "the nested scope of the four protocol routes (judged as part of WebServer::config's registration tree)",
+}
+
+
 def keep():
-    return set(json.load(open(KEEP_FILE)))
+    return set(json.load(open(KEEP_FILE))) - set(SPLICE_BASELINE)
 
 
 def program(cfg="dev", use_cache=True, repo=None):
